@@ -609,7 +609,11 @@ func cmdParseTraceCheck(a args) {
 // partial tree is invalid or inside the source, and line:column prefixes of
 // the error text point into the source.
 func errorPositionChecks(text string) string {
-	stmts, perr := parser.Parse(text)
+	var stmts []parser.Statement
+	var perr error
+	if p, _ := guarded(text, "Parse", func() { stmts, perr = parser.Parse(text) }); p != nil {
+		return "" // reported by the totality checks
+	}
 	for _, n := range listNodes(stmts) {
 		var sp parser.Span
 		if p, _ := guarded(text, "Span", func() { sp = n.Node.Span() }); p != nil {
